@@ -346,11 +346,88 @@ def rand_geom(rng, kinds=None):
     raise ValueError(kind)
 
 
+# ---- the globe world: curved shapes where their planar shortcuts are weakest ----------------------------------------
+# large circles / ellipses / rings far from the equator (their `.bounds` under-estimate the poleward and eastward
+# extent) and across the antimeridian (bounds with min_lon > max_lon), with members and queries placed on both sides of
+# the rim; plus the coordinate sentinels (lon -180, the poles).  The measured truth tables stay the reference, so any
+# collection-level shortcut (pre-filter on boxes, planar distance …) shows up as a disagreement.
+
+def _dest(lon, lat, bearing, dist, radius=6371000.0):
+    import math
+    p1, l1, th, d = math.radians(lat), math.radians(lon), math.radians(bearing), dist / radius
+    p2 = math.asin(max(-1.0, min(1.0, math.sin(p1) * math.cos(d) + math.cos(p1) * math.sin(d) * math.cos(th))))
+    l2 = l1 + math.atan2(math.sin(th) * math.sin(d) * math.cos(p1), math.cos(d) - math.sin(p1) * math.sin(p2))
+    return round((math.degrees(l2) + 540.0) % 360.0 - 180.0, 6), round(math.degrees(p2), 6)
+
+
+def _wrap(lon):
+    return round((lon + 540.0) % 360.0 - 180.0, 6)
+
+
+class Globe:
+    CENTRES = [(19.0, 69.6), (-150.0, 75.0), (30.0, -72.0), (0.0, 82.0), (179.9, 10.0), (-179.95, 65.0), (179.5, -40.0),
+               (180.0, 0.0), (10.0, 45.0)]
+
+    def __init__(self, rng):
+        self.lon, self.lat = rng.choice(self.CENTRES)
+        self.r = rng.choice([50_000, 200_000, 200_000, 400_000])
+
+    def pt(self, rng):
+        if rng.random() < 0.04:
+            return rng.choice([(-180.0, self.lat), (180.0, self.lat), (self.lon, 90.0), (self.lon, -90.0)])
+        b = rng.choice([0, 0, 45, 85, 90, 90, 135, 180, 270, 275, 315, rng.uniform(0, 360)])
+        d = self.r * rng.choice([0, 0.5, 0.9, 0.99, 0.995, 0.9975, 1.0025, 1.01, 1.5])
+        return _dest(self.lon, self.lat, b, d)
+
+    def geom(self, rng, kinds=None):
+        kind = rng.choice(kinds or ['P', 'P', 'P', 'P', 'B', 'L', 'G', 'C', 'C', 'E', 'R', 'MP'])
+        f = repr
+        if kind == 'P':
+            x, y = self.pt(rng)
+            return f'P_{f(x)}_{f(y)}'
+        if kind == 'B':
+            (x, y), a = self.pt(rng), rng.choice([0.05, 0.2, 0.5])
+            n, so = min(90.0, round(y + a, 6)), max(-90.0, round(y - a, 6))
+            return f'B_{f(_wrap(x - 2 * a))}_{f(n)}_{f(_wrap(x + 2 * a))}_{f(so)}'
+        if kind == 'L':
+            return 'L_' + '_'.join(f'{f(x)}_{f(y)}' for x, y in (self.pt(rng) for _ in range(rng.choice([2, 3]))))
+        if kind == 'G':
+            for _ in range(20):
+                p = [self.pt(rng) for _ in range(3)]
+                if abs(_cross(*p)) > 1e-6 and max(abs(a[0] - b[0]) for a in p for b in p) < 180:
+                    return 'G_' + '_'.join(f'{f(x)}_{f(y)}' for x, y in p)
+            return self.geom(rng, ['P'])
+        big = rng.random() < 0.6
+        (x, y), r = ((self.lon, self.lat), self.r) if big else (self.pt(rng), self.r // 10)
+        if abs(y) > 89:
+            y = 89.0 if y > 0 else -89.0
+        if kind == 'C':
+            return f'C_{f(x)}_{f(y)}_{r}'
+        if kind == 'E':
+            return f'E_{f(x)}_{f(y)}_{r}_{r // 2}_{rng.choice([0, 30, 90])}'
+        if kind == 'R':
+            return f'R_{f(x)}_{f(y)}_{r // 3}_{r}'
+        if kind == 'MP':
+            return 'MP_' + '_'.join(f'{f(x)}_{f(y)}' for x, y in (self.pt(rng) for _ in range(rng.choice([1, 2, 3]))))
+        raise ValueError(kind)
+
+    def query(self, rng):
+        if rng.random() < 0.5:
+            return self.geom(rng, ['C', 'C', 'E', 'R'])
+        return self.geom(rng, ['P', 'P', 'B', 'L', 'C'])
+
+
 def rand_dt(rng, p_none):
     r = rng.random()
     if r < p_none:
         return None
     nt = 8
+    if rng.random() < 0.12:
+        # sentinel bounds: open-ended (end = datetime.max), since-forever (start = datetime.min), eternal, and the
+        # two extreme instants
+        t = U.T(rng.randrange(nt))
+        return rng.choice([(t, U.MAX_US), (t, U.MAX_US), (U.MIN_US, t), (U.MIN_US, t), (U.MIN_US, U.MAX_US),
+                           (U.MAX_US, U.MAX_US), (U.MIN_US, U.MIN_US)])
     if r < p_none + (1 - p_none) * 0.45:
         s = rng.randrange(nt)
         return (U.T(s), U.T(s))
@@ -375,19 +452,22 @@ def rand_props(rng, all_c):
     return props
 
 
-def rand_specs(rng, n, p_none, all_c):
+def rand_specs(rng, n, p_none, all_c, geomf=None):
+    geomf = geomf or rand_geom
     specs = []
     for _ in range(n):
         if specs and rng.random() < 0.15:
             g, dt, props = rng.choice(specs)         # an equal but distinct object
             specs.append((g, dt, list(props)))
         else:
-            specs.append((rand_geom(rng), rand_dt(rng, p_none), rand_props(rng, all_c)))
+            specs.append((geomf(rng), rand_dt(rng, p_none), rand_props(rng, all_c)))
     return specs
 
 
 def inst_tok(rng, v):
     r = rng.random()
+    if U.near_sentinel(v):
+        return str(v) if r < 0.6 else f'{v}@n'
     if r < 0.5:
         return str(v)
     if r < 0.75:
@@ -399,11 +479,12 @@ def _table(shapes, fn):
     return 'b:' + ''.join(tf(fn(x)) for x in shapes)
 
 
-def scenario_lines(rng, K, n, hist):
+def scenario_lines(rng, K, n, hist, world=None):
     """all op lines for one random collection; returns (lines, geospan_lines)"""
     p_none = 0.3 if K == 'F' else (0.0 if rng.random() < 0.9 else 0.1)
     all_c = rng.random() < 0.7
-    specs = rand_specs(rng, n, p_none, all_c)
+    geomf = world.geom if world else rand_geom
+    specs = rand_specs(rng, n, p_none, all_c, geomf)
     toks, shapes = U.make_tokens(specs)
     head = f'{K} | ' + ' '.join(toks)
     lines, span = [], []
@@ -412,16 +493,20 @@ def scenario_lines(rng, K, n, hist):
         add(op)
     # time filters
     ticks = sorted({d for _g, dt, _p in specs if dt for d in dt}) or [U.T(0)]
-    for v in rng.sample(ticks, min(2, len(ticks))) + [U.T(rng.randrange(9)) + rng.choice([0, 1])]:
+    extra = [U.T(rng.randrange(9)) + rng.choice([0, 1])] + ([rng.choice([U.MIN_US, U.MAX_US])] if rng.random() < 0.25 else [])
+    for v in rng.sample(ticks, min(2, len(ticks))) + extra:
         add('fdt_inst', inst_tok(rng, v))
     for _ in range(2):
-        a, b = sorted(rng.choice(ticks + [U.T(rng.randrange(9))]) for _ in range(2))
+        a, b = sorted(rng.choice(ticks + [U.T(rng.randrange(9)), rng.choice([U.MIN_US, U.MAX_US, U.T(4)])]) for _ in range(2))
         add('fdt_ival', f'{inst_tok(rng, a)} {inst_tok(rng, b)}')
     add('fdt_bad', rng.choice(sorted(BAD_DT)))
     # shape queries: tables measured on the implementation, in both argument orders
-    for _ in range(2):
-        qg = rand_geom(rng, ['P', 'P', 'B', 'B', 'G', 'C', 'L', 'MP']) if rng.random() < 0.7 else \
-            rng.choice(['B_0_6_6_0', 'B_-1_7_7_-1', 'B_0_6_3_0', 'C_3_3_400000'])
+    for _ in range(3 if world else 2):
+        if world:
+            qg = world.query(rng)
+        else:
+            qg = rand_geom(rng, ['P', 'P', 'B', 'B', 'G', 'C', 'L', 'MP']) if rng.random() < 0.7 else \
+                rng.choice(['B_0_6_6_0', 'B_-1_7_7_-1', 'B_0_6_3_0', 'C_3_3_400000'])
         if shapes and rng.random() < 0.3:
             qg = rng.choice(specs)[0]
         qdt = rand_dt(rng, 0.5)
@@ -459,7 +544,7 @@ def scenario_lines(rng, K, n, hist):
         items.append(rng.choice(toks))
         g, dt, props = rng.choice(specs)
         items.append((g, dt, props))
-    items.append((rand_geom(rng), rand_dt(rng, 0.3), []))
+    items.append((geomf(rng), rand_dt(rng, 0.3), []))
     for it in items:
         if isinstance(it, str):
             add('in', it)
@@ -471,7 +556,7 @@ def scenario_lines(rng, K, n, hist):
     # concatenation
     K2 = K if rng.random() < 0.75 else ('T' if K == 'F' else 'F')
     m = rng.randrange(0, 5)
-    specs2 = rand_specs(rng, m, 0.3 if K2 == 'F' else (0.0 if rng.random() < 0.9 else 0.2), False)
+    specs2 = rand_specs(rng, m, 0.3 if K2 == 'F' else (0.0 if rng.random() < 0.9 else 0.2), False, geomf)
     if specs and specs2 and rng.random() < 0.4:
         specs2[0] = specs[0]
     both, _ = U.make_tokens(specs + specs2)
@@ -491,7 +576,11 @@ def hull_lines(rng, count):
     vl, hl = [], []
     for _ in range(count):
         n = rng.randrange(1, 8)
-        geoms = [rand_geom(rng, ['P', 'P', 'B', 'G', 'L', 'C', 'E', 'R', 'MP', 'ML', 'MG', 'MM']) for _ in range(n)]
+        if rng.random() < 0.3:
+            w = Globe(rng)
+            geoms = [w.geom(rng) for _ in range(n)]
+        else:
+            geoms = [rand_geom(rng, ['P', 'P', 'B', 'G', 'L', 'C', 'E', 'R', 'MP', 'ML', 'MG', 'MM']) for _ in range(n)]
         shapes = [U.build_geom(g) for g in geoms]
 
         def tree(s):
@@ -544,7 +633,9 @@ def check(run):
     for k in range(nsc):
         K = 'F' if k % 2 == 0 else 'T'
         n = rng.choice([0, 1, 2, 3]) if rng.random() < 0.2 else rng.randrange(0, 13)
-        ls, sp = scenario_lines(rng, K, n, run.hist)
+        world = Globe(rng) if k % 4 >= 2 and rng.random() < 0.6 else None      # ~30 % of the collections live on the globe world
+        run.hist['world:' + ('globe' if world else 'grid')] += 1
+        ls, sp = scenario_lines(rng, K, n, run.hist, world)
         lines += ls
         span += sp
         if len(lines) > 40000:
@@ -569,7 +660,10 @@ def check(run):
     run.run_cases('np-hull-contains', hl, impl_hull, lambda _l: 'T', model=False, tag=lambda ln, a: ['np-hull:' + a[:1]])
 
     return run.finish(
-        rule='random FeatureCollections and Tracks of 0..12 mixed shapes (points, boxes, polygons, linestrings, circles, '
+        rule='~30 % of the collections live on a globe world (large circles / ellipses / rings at high latitude and across '
+             'the antimeridian, members and queries on both sides of the rim, lon -180 and the poles); time bounds include '
+             'the sentinels datetime.min / datetime.max (open-ended, since-forever, eternal).  '
+             'random FeatureCollections and Tracks of 0..12 mixed shapes (points, boxes, polygons, linestrings, circles, '
              'ellipses, rings, multi-shapes; time-less / instants / intervals / long intervals; equal-but-distinct '
              'duplicates) x every collection operation (time, intersection, contains, contained-by and property filters, '
              'bounds, membership, concatenation, indexing, slicing); per-shape predicate tables measured on the '
